@@ -602,6 +602,44 @@ func init() {
 			fmt.Fprintf(&sb, "/-- cmd/spark.go, render callback: the guard of the trim step and its body, line by line -/\ndef sparkTrimGuard : String := %s\ndef sparkTrimBody : List String := [\n  %s]\n/-- the body of helpers.SortsByValue -/\ndef sortsByValueSrc : String := %s\n\n", leanStr(guard), strings.Join(body, ",\n  "), leanStr(sbv))
 		}
 
+		// ---- cmd/histo.go writeHistoOutput, aggregation.minSlice, and the footer format strings of the five counting commands
+		{
+			bodyOf := func(file, fn string) []string {
+				var ls []string
+				if fd := c.Func(file, fn); fd != nil && fd.Body != nil {
+					for _, l := range strings.Split(c.Print(fd.Body), "\n") {
+						if t := strings.Join(strings.Fields(l), " "); t != "" {
+							ls = append(ls, leanStr(t))
+						}
+					}
+				} else {
+					ls = append(ls, leanStr("<missing>"))
+				}
+				return ls
+			}
+			fmt.Fprintf(&sb, "/-- cmd/histo.go `writeHistoOutput`, line by line -/\ndef histoOutputBody : List String := [\n  %s]\n\n", strings.Join(bodyOf("cmd/histo.go", "writeHistoOutput"), ",\n  "))
+			fmt.Fprintf(&sb, "/-- pkg/aggregation/counter.go `minSlice` -/\ndef minSliceBody : List String := [\n  %s]\n\n", strings.Join(bodyOf("pkg/aggregation/counter.go", "minSlice"), ",\n  "))
+			var rows []string
+			for _, cf := range [][3]string{{"histo", "cmd/histo.go", "histoFunction"}, {"table", "cmd/tabulate.go", "tabulateFunction"},
+				{"heatmap", "cmd/heatmap.go", "heatmapFunction"}, {"spark", "cmd/spark.go", "sparkFunction"}, {"bargraph", "cmd/bargraph.go", "bargraphFunction"}} {
+				var calls []string
+				if fd := c.Func(cf[1], cf[2]); fd != nil {
+					ast.Inspect(fd, func(n ast.Node) bool {
+						call, ok := n.(*ast.CallExpr)
+						if !ok {
+							return true
+						}
+						if p, nm, ok := c03Sel(call.Fun); ok && p == "helpers" && nm == "FWriteExtractorSummary" {
+							calls = append(calls, leanStr(strings.Join(strings.Fields(c.Print(call)), " ")))
+						}
+						return true
+					})
+				}
+				rows = append(rows, fmt.Sprintf("(%s, [%s])", leanStr(cf[0]), strings.Join(calls, ", ")))
+			}
+			fmt.Fprintf(&sb, "/-- every `helpers.FWriteExtractorSummary(…)` call of the five counting commands, as spelled in the source -/\ndef footerCalls : List (String × List String) := [\n  %s]\n\n", strings.Join(rows, ",\n  "))
+		}
+
 		for _, fn := range [][2]string{
 			{"cmd/reduce.go", "parseKeyValInitial"}, {"cmd/expressions.go", "parseKeyValue"},
 			{"cmd/analyze.go", "writeAggrOutput"}, {"cmd/analyze.go", "parseStringSet"},
